@@ -152,6 +152,16 @@ def decide(t):
     if z3.is_false(s):
         return False
     r = _cur
+    if r is not None and r.decisions is None and getattr(r, "feasible", None) is not None:
+        # not in fork mode: a branch whose outcome is IMPLIED by the assumptions made so far (argument validation such as
+        # `if fs <= 0: raise` under the precondition fs > 0) is simply taken
+        base = r.assumptions + r.side + r.path + r.guards
+        can_t = r.feasible(base + [t])
+        can_f = r.feasible(base + [z3.Not(t)]) if can_t != "unsat" else "sat"
+        if can_t == "unsat" and can_f != "unsat":
+            return False
+        if can_f == "unsat" and can_t != "unsat":
+            return True
     if r is None or r.decisions is None:
         raise SymbolicBranch("branch on a symbolic condition outside fork mode: %s" % str(s)[:200])
     if r.dpos < len(r.decisions):
